@@ -55,7 +55,9 @@ def impl(adds, urls):
     return dict(len=len(t), iter=sorted(t), match=m)
 
 
-FORMS = [lambda h: h, lambda h: "http://" + h + "/p?q=1#f", lambda h: h + ":8080/x", lambda h: "https://u:p@" + h, lambda h: "//" + h + "/"]
+FORMS = [lambda h: h, lambda h: "http://" + h + "/p?q=1#f", lambda h: h + ":8080/x", lambda h: "https://u:p@" + h, lambda h: "//" + h + "/",
+         # scheme-less and slash-less: port, userinfo, query, fragment directly after the host
+         lambda h: h + ":8080", lambda h: "u:p@" + h, lambda h: h + "?q=1", lambda h: h + "#f"]
 
 
 def run(res, tier, rng):
@@ -133,7 +135,7 @@ def run(res, tier, rng):
     n2 = leafcorr.run(res, rng, "quick") if tier == "quick" else leafcorr.run(res, rng, "thorough")
     res.evaluations += n1 + n2
     res.rule = ("exhaustive: every add-sequence of length <= %d over the 14 hostnames of depth <= 3 on labels {a,b}, then len, set(iter) and "
-                "match on all 30 hostnames of depth <= 4 embedded in 5 URL forms (bare, scheme+path+query, port, userinfo, '//'); "
+                "match on all 30 hostnames of depth <= 4 embedded in 9 URL forms (bare, scheme+path+query, port, userinfo, '//', and slash-less port / userinfo / query / fragment); "
                 "%d seeded random histories over realistic labels (upper case, punycode, IDN, surrounding whitespace); implementation compared with "
                 "the property oracle (label-suffix cover on normalised labels) and with the extracted model; plus regex-level and urllib/utils "
                 "leaf correspondence. Non-trivial = distinct history with >= 2 distinct hostnames." % (depth, nrand))
